@@ -22,7 +22,8 @@ NOTES = {  # what a seed taught (checks strengthened because it was first missed
     "C15-2": "first missed: steps with 3-4 bracket predicates incl. a non-locatable one in the middle",
     "C09-1": "first missed: documents with a childless root and one prologue/epilogue node offered elsewhere",
     "C09-2": "first missed: parentless text targets with offered comment/PI",
-    "C09-3": "first missed: root re-assignment before the guarded calls (direct search; the setter is not in the Coq scripts)",
+    "C09-3": "was caught (root re-assignment before the guarded calls); harmless on the current HEAD since fix e27f40b returns early on self-assignment, so nothing is reported now - correctly",
+    "C11-2": "caught as a broken tie against the HEAD it was written for; no longer applies after fix commits rewrote _etree_key",
     "C16-3": "first only a broken translator obligation: nesting-depth sweep over three expression shapes added",
     "C05-5": "a yield under altered_default_filters: the stack discipline is C08's subject (all_balanced no longer proves; dynamic failures)",
     "C05-6": "a GC-callback change (held appended tail text): C04's subject",
@@ -77,6 +78,8 @@ for d in sorted(glob.glob(os.path.join(HERE, "seeded", "C*-*")), key=lambda p: (
             how += " (+ a lemma no longer closes)"
         elif b and "translator" in b.group(1):
             how += " (+ translator obligation)"
+    elif "harmless" in det or "no longer applies" in det:
+        how = "see note (patch superseded by later fix: commits)"
     elif det:
         how = "not caught by its own property's check"
         for other in sorted(glob.glob(os.path.join(d, "detection_C*.txt"))):
